@@ -38,6 +38,7 @@ WRAP = "naunet/templates/patches/enzo/Grid_NaunetWrapper.C.j2"
 RENDER = "naunet/console/commands/render.py"
 CONF = "naunet/configuration.py"
 PATCH = "naunet/patches.py"
+KRF = "naunet/reactions/kromereaction.py"
 SELF = ("param", "self")
 NSPEC = ("attr", ("name", "network"), "species")
 NELEM = ("attr", ("name", "network"), "elements")
@@ -649,14 +650,119 @@ def _r6(ctx, pkg, rule):
                       expected=want, found=al)
     # KROME suffix rewriting (shared with C12.R3)
     kfn = pkg.method("KROMEReaction", "rateexpr")
-    subs = []
-    for c in ast.walk(kfn):
-        if isinstance(c, ast.Call) and ast.unparse(c.func) == "re.sub" and len(c.args) >= 2 and all(isinstance(a, ast.Constant) for a in c.args[:2]):
-            subs.append((c.args[0].value, c.args[1].value))
-    tab = {p[-1] if not p.endswith(r"\)") else ")": r for p, r in subs if p.startswith("(idx_")}
+    kfile = pkg.cls("KROMEReaction").file
+    subs, unresolved = regex_rewrites(pkg, "KROMEReaction", kfn)
+    tab = {p[-1] if not p.endswith(r"\)") else ")": r for p, r, _ in subs if p.startswith("(idx_")}
     want = {"p": r"\1II", "m": r"\1M", ")": r"\1I)"}
-    ctx.check(tab == want, "R6", "KROME idx_ suffixes", ("naunet/reactions/kromereaction.py", kfn.lineno),
-              "idx_Xp -> IDX_XII, idx_Xm -> IDX_XM, idx_X) -> IDX_XI): the suffixes Species.alias gives to charge +1, -1, 0", expected=str(want), found=str(tab))
+    if tab != want and unresolved:
+        ctx.unrec("R6", "KROME idx_ suffixes", (kfile, unresolved[0][1]), f"a regular-expression rewriting of the rate text has a pattern / replacement that is not a literal: {unresolved[0][0][:80]}")
+    else:
+        ctx.check(tab == want, "R6", "KROME idx_ suffixes", (kfile, kfn.lineno),
+                  "idx_Xp -> IDX_XII, idx_Xm -> IDX_XM, idx_X) -> IDX_XI): the suffixes Species.alias gives to charge +1, -1, 0", expected=str(want), found=str(tab))
+
+
+def regex_rewrites(pkg, cname, fn):
+    """Every regular-expression substitution a method applies (itself, or in the methods of its class / the functions of its
+    module it calls): `re.sub(P, R, ..)`, `re.compile(P).sub(R, ..)`, `pat.sub(R, ..)` with P and R literals -- written in place,
+    bound to a name once, or the columns of a literal table (module / class level, or local) the call sits in a loop over.
+    -> ([(pattern, replacement, line)], [(source text, line)] of substitutions whose pattern / replacement is not a literal)"""
+    file = pkg.cls(cname).file
+    mod = pkg.modules[file]
+    funcs, todo = [fn], [(fn, 0)]
+    while todo:
+        f, d = todo.pop()
+        if d >= 3:
+            continue
+        for c in ast.walk(f):
+            if not isinstance(c, ast.Call):
+                continue
+            g = None
+            if isinstance(c.func, ast.Attribute) and isinstance(c.func.value, ast.Name) and c.func.value.id in ("self", "cls", cname):
+                g = pkg.resolve(cname, c.func.attr)[1]
+            elif isinstance(c.func, ast.Name):
+                g = pkg.functions.get((file, c.func.id))
+            if g is not None and not any(g is x for x in funcs):
+                funcs.append(g)
+                todo.append((g, d + 1))
+
+    def once(scope_body, name):
+        """the single value a name is bound to by plain assignment in a scope, else None"""
+        vals = [st.value for st in scope_body if isinstance(st, (ast.Assign, ast.AnnAssign)) and st.value is not None
+                for t in (st.targets if isinstance(st, ast.Assign) else [st.target]) if isinstance(t, ast.Name) and t.id == name]
+        return vals[0] if len(vals) == 1 else None
+
+    def table(e, f):
+        """literal sequence an iterable expression denotes: written in place, a local / module-level name, a class attribute"""
+        if isinstance(e, (ast.Tuple, ast.List)):
+            return e
+        if isinstance(e, ast.Name):
+            v = once([n for n in ast.walk(f) if isinstance(n, ast.stmt)], e.id) or once(mod.body, e.id)
+            return table(v, f) if v is not None else None
+        if isinstance(e, ast.Attribute) and isinstance(e.value, ast.Name) and e.value.id in ("self", "cls", cname):
+            v = pkg.resolve_attr(cname, e.attr)[1]
+            return table(v, f) if v is not None else None
+        if isinstance(e, ast.Call) and isinstance(e.func, ast.Name) and e.func.id in ("list", "tuple", "tqdm") and len(e.args) == 1:
+            return table(e.args[0], f)
+        return None
+
+    def bindings(c, f):
+        """[{loop target name: element expr}] for the literal-table loops the call sits in (one dict per row; [{}] outside loops)"""
+        rows = [{}]
+        for lp in ast.walk(f):
+            if isinstance(lp, ast.For) and any(n is c for b in lp.body for n in ast.walk(b)):
+                tab = table(lp.iter, f)
+                if tab is None:
+                    continue
+                new = []
+                for el in tab.elts:
+                    if isinstance(lp.target, ast.Name):
+                        m = {lp.target.id: el}
+                    elif isinstance(lp.target, (ast.Tuple, ast.List)) and isinstance(el, (ast.Tuple, ast.List)) and len(el.elts) == len(lp.target.elts) \
+                            and all(isinstance(t, ast.Name) for t in lp.target.elts):
+                        m = {t.id: x for t, x in zip(lp.target.elts, el.elts)}
+                    else:
+                        m = {}
+                    new += [dict(r, **m) for r in rows]
+                rows = new or rows
+        return rows
+
+    def text(e, env, f, depth=0):
+        if isinstance(e, ast.Constant) and isinstance(e.value, str):
+            return e.value
+        if depth > 4:
+            return None
+        if isinstance(e, ast.Call) and ast.unparse(e.func) == "re.compile" and e.args:
+            return text(e.args[0], env, f, depth + 1)
+        if isinstance(e, ast.Name):
+            if e.id in env:
+                return text(env[e.id], env, f, depth + 1)
+            v = once([n for n in ast.walk(f) if isinstance(n, ast.stmt)], e.id) or once(mod.body, e.id)
+            return text(v, env, f, depth + 1) if v is not None else None
+        if isinstance(e, ast.Attribute) and isinstance(e.value, ast.Name) and e.value.id in ("self", "cls", cname):
+            v = pkg.resolve_attr(cname, e.attr)[1]
+            return text(v, env, f, depth + 1) if v is not None else None
+        return None
+
+    subs, unresolved = [], []
+    for f in funcs:
+        for c in ast.walk(f):
+            if not (isinstance(c, ast.Call) and isinstance(c.func, ast.Attribute) and c.func.attr in ("sub", "subn")):
+                continue
+            if ast.unparse(c.func.value) == "re":
+                if len(c.args) < 3:
+                    continue
+                pat_e, rep_e = c.args[0], c.args[1]
+            else:
+                if not c.args:
+                    continue
+                pat_e, rep_e = c.func.value, c.args[0]
+            for env in bindings(c, f):
+                pat, rep = text(pat_e, env, f), text(rep_e, env, f)
+                if pat is None or rep is None:
+                    unresolved.append((ast.unparse(c), c.lineno))
+                else:
+                    subs.append((pat, rep, c.lineno))
+    return subs, unresolved
 
 
 # ------------------------------------------------------------------ R7 (shared with C15.R2)
@@ -954,6 +1060,7 @@ MUTANTS = [
     {"name": "alias-suffix-helper-single-M", "edits": [
         {"file": SP, "old": '                "I" * (self.charge + 1) if self.charge >= 0 else "M" * abs(self.charge),\n', "new": "                self._charge_run(),\n"},
         {"file": SP, "old": "    @alias.setter\n", "new": '    def _charge_run(self):\n        q = self.charge\n        if q >= 0:\n            return "I" * (q + 1)\n        return "M"\n\n    @alias.setter\n'}], "rules": ["R6"]},
+    {"name": "krome-cation-suffix-single-I", "file": KRF, "old": 'rate = re.sub(r"(idx_.?)p", r"\\1II", rate)', "new": 'rate = re.sub(r"(idx_.?)p", r"\\1I", rate)', "rules": ["R6"]},
     {"name": "alias-single-M", "file": SP, "old": 'else "M" * abs(self.charge),', "new": 'else "M",', "rules": ["R6"]},
     {"name": "grackle-HeII", "file": PATCH, "old": '        "HeII",\n        "HeIII",', "new": '        "HeI",\n        "HeIII",', "rules": ["R6"]},
     {"name": "wrapper-set-deleted", "file": WRAP, "old": "        {% set specnum = species.network | map(attribute='alias') | map('suffix', \"Num\") -%}\n        {% for s, n in zip(network.species, specnum) -%}\n          BaryonField", "new": "        {% for s, n in zip(network.species, specnum) -%}\n          BaryonField", "rules": ["R8"]},
@@ -979,6 +1086,9 @@ BENIGN = [
         {"file": SP, "old": '            self._alias = "{}{}{}".format(\n                "G" if self.is_surface else "",\n                basename,\n                "I" * (self.charge + 1) if self.charge >= 0 else "M" * abs(self.charge),\n            )\n',
          "new": '            prefix = "G" if self.is_surface else ""\n            self._alias = prefix + basename + self._charge_run()\n'},
         {"file": SP, "old": "    @alias.setter\n", "new": '    def _charge_run(self):\n        q = self.charge\n        if q >= 0:\n            return "I" * (q + 1)\n        return "M" * abs(q)\n\n    @alias.setter\n'}]},
+    {"name": "krome-rewrites-as-compiled-table", "file": KRF,
+     "old": '        rate = re.sub(r"(\\d\\.?)d(\\-?\\d)", r"\\1e\\2", self.rate_string)\n        rate = re.sub(r"(idx_.?)p", r"\\1II", rate)\n        rate = re.sub(r"(idx_.?)m", r"\\1M", rate)\n        rate = re.sub(r"(idx_.?)\\)", r"\\1I)", rate)\n',
+     "new": '        rate = self.rate_string\n        for pat, rep in ((re.compile(r"(\\d\\.?)d(\\-?\\d)"), r"\\1e\\2"), (re.compile(r"(idx_.?)p"), r"\\1II"), (re.compile(r"(idx_.?)m"), r"\\1M"), (re.compile(r"(idx_.?)\\)"), r"\\1I)")):\n            rate = pat.sub(rep, rate)\n'},
     {"name": "elem-symbol-through-set", "file": MACROS, "old": "{% for spec in network.elements %}\n#define IDX_ELEM_{{ spec.element_count.keys() | first }} {{ loop.index0 }}",
      "new": "{% for elem in network.elements %}\n{% set symbol = elem.element_count | first %}\n#define IDX_ELEM_{{ symbol }} {{ loop.index0 }}"},
     {"name": "index-macro", "edits": [
